@@ -415,6 +415,19 @@ func payloadFromPeerCall(v ssa.Value, l *core.Loop) bool {
 			return true
 		}
 	}
+	// a private helper that is handed the loop's peer index and whose result depends on it
+	if h := core.Callee(call); core.PrivateHelper(h) && !call.Call.IsInvoke() {
+		var res []ssa.Value
+		for _, ret := range core.Returns(h) {
+			res = append(res, ret.Results...)
+		}
+		d := core.DepsOf(h, false, res...)
+		for k, a := range call.Call.Args {
+			if core.Strip(a) == l.Idx && d[fmt.Sprintf("param:%d", k)] {
+				return true
+			}
+		}
+	}
 	return false
 }
 
